@@ -93,5 +93,6 @@ def dual_channel(
     if isinstance(phi_op, np.ndarray):
         if len(phi_op.shape) == 2:
             d_in, d_out, _ = channel_dim(phi_op, dim=dims, compute_env_dim=False)
-            return swap(phi_op.conj(), dim=[[d_in[0], d_out[0]], [d_in[1], d_out[1]]])
+            # The dual Choi matrix has the shape of `phi_op` (`swap` flattens a 1-by-1 matrix).
+            return np.reshape(swap(phi_op.conj(), dim=[[d_in[0], d_out[0]], [d_in[1], d_out[1]]]), phi_op.shape)
     raise ValueError("Invalid: The variable `phi_op` must either be a list of Kraus operators or as a Choi matrix.")
